@@ -38,6 +38,21 @@ Proof. intros es H. repeat split; [exact (class_all es H)|exact (answered_all es
 Theorem C10_no_reply_to_notification : forall es, over_alphabet es -> check_noreply mon0 (run init es) = true.
 Proof. exact noreply_all. Qed.
 
+(* the read in progress (in ESTABLISHED the task kept by Peer._read_message_or_nop across its 100 ms timeouts):
+   a partly received message stays pending through EVERY event - timeouts, reload, API commands, teardown
+   requests, scheduler steps - that neither completes it nor closes the transport (what seeded change C06-3
+   breaks: a reload discarded it and the rest of the message was read as a header) *)
+Theorem C10_pending_read_survives : forall es e, over_alphabet es -> In e alphabet ->
+  survives_b (final init es) e = true.
+Proof. exact pending_read_survives. Qed.
+
+(* what was read or is pending always belongs to the transport the session owns, and a step that closes that
+   transport or takes another one keeps nothing of it (what seeded change C10-3 breaks: a completed read that
+   the torn-down loop never looked at was handed to the next session) *)
+Theorem C10_no_cross_session_leak : forall es e, over_alphabet es -> In e alphabet ->
+  no_leak_state (final init es) = true /\ no_leak_step (final init es) e = true.
+Proof. exact no_cross_session_leak. Qed.
+
 (* non-vacuity: every error class in the state where it matters; the model's answers; and the checkers
    reject the wrong answers - among them the trace the tree produced before the repair of D13 (a 5/1
    meant for the replaced transport written on the accepted one, in IDLE) and a silent reset *)
@@ -76,6 +91,28 @@ Proof.
   vm_compute. repeat split.
 Qed.
 
+(* a message in two pieces with a reload, a queued refresh and a timeout's worth of scheduler steps between
+   them: still pending, then handled; a teardown is noticed at the end of the iteration; a header error that
+   arrives during the last pause of the torn-down session is dropped with its transport and the next session
+   starts clean *)
+Example C10_example_pending :
+  let es := [Tick; ConnectOk; Recv OpenOk; Recv Keepalive; Tick; RecvPart; Reload Same; ApiRefresh; Tick; Handover; Tick] in
+  over_alphabet es /\ pend (final init es) = PPartial
+  /\ run (final init es) [Recv (UpdateBad 1)] =
+       [(Recv (UpdateBad 1), [Write (WNotification 3 1); ApiDown; Fsm Established Idle; CloseTransport])]
+  /\ run (final init es) [Teardown 4; LoopPause; Recv (HeaderErr 1); LoopExit; Tick; ConnectOk; Recv OpenOk; Recv Keepalive] =
+       [(Teardown 4, []); (LoopPause, []); (Recv (HeaderErr 1), []);
+        (LoopExit, [Write (WNotification 6 4); ApiDown; Fsm Established Idle; CloseTransport]);
+        (Tick, [Fsm Idle Active; Fsm Active Idle]);
+        (ConnectOk, [ApiConnected; Fsm Idle Connect; Write WOpen; Fsm Connect OpenSent]);
+        (Recv OpenOk, [Fsm OpenSent OpenConfirm; Write WKeepalive]);
+        (Recv Keepalive, [Fsm OpenConfirm Established; ApiUp])].
+Proof.
+  cbv zeta. split; [apply over_alphabet_dec; vm_compute; reflexivity|]. vm_compute. repeat split.
+Qed.
+
+Print Assumptions C10_pending_read_survives.
+Print Assumptions C10_no_cross_session_leak.
 Print Assumptions C10_notification_names_the_error.
 Print Assumptions C10_session_end_is_answered.
 Print Assumptions C10_silence_after_notification.
